@@ -551,6 +551,19 @@ class BuiltinsMixin:
     def m_str_lstrip(self, s, r, args, kw, node, bm): return self._strip(s, r, args, "lstrip")
     def m_str_rstrip(self, s, r, args, kw, node, bm): return self._strip(s, r, args, "rstrip")
 
+    def m_str_partition(self, s, r, args, kw, node, bm):
+        from .types import TTuple
+        sep = self._sarg(args[0])
+        idx = z3.IndexOf(r.t, sep.t, z3.IntVal(0))
+        found = z3.And(idx >= 0, z3.Length(sep.t) > 0)
+        n = z3.Length(r.t)
+        empty = z3.StringVal("")
+        ty = TTuple(STR, STR, STR)
+        srt = self.reg.sort(ty)
+        t = srt.mktup(z3.If(found, z3.SubString(r.t, 0, idx), r.t), z3.If(found, sep.t, empty),
+                      z3.If(found, z3.SubString(r.t, idx + z3.Length(sep.t), n - idx - z3.Length(sep.t)), empty))
+        return [(s, Val(ty, t))]
+
     def m_str_removeprefix(self, s, r, args, kw, node, bm):
         p = self._sarg(args[0])
         return [(s, Val(STR, z3.If(z3.PrefixOf(p.t, r.t), z3.SubString(r.t, z3.Length(p.t), z3.Length(r.t) - z3.Length(p.t)), r.t)))]
